@@ -29,27 +29,44 @@ Remaining == end - cursor
 
 CInit == len \in Nat /\ start = 0 /\ cursor = 0 /\ end = len /\ lastEnd = 0
 
+\* ---- the contract on cursor VALUES (records): precondition `Ok..` and effect `Do..` ----
+\* (TraceOps follows several live cursors of one call with these; the actions below are the
+\* same contract on the one cursor held in the variables)
+Cur == [start |-> start, cursor |-> cursor, end |-> end, lastEnd |-> lastEnd]
+Apply(k) == /\ start' = k.start /\ cursor' = k.cursor /\ end' = k.end /\ lastEnd' = k.lastEnd
+            /\ UNCHANGED len
+Rem(k) == k.end - k.cursor
+OkNew(n, a, b) == 0 <= a /\ a <= b /\ b <= n
+DoNew(a, b) == [start |-> a, cursor |-> a, end |-> b, lastEnd |-> a]
+OkPeekAhead(k, n) == n >= 0 /\ n <= Rem(k)                 \* unsafe: n <= len()
+OkPeekN(k, n) == n >= 0                                    \* safe: returns None if n > len()
+OkAdvance(k, n) == n >= 0 /\ n <= Rem(k)                   \* unsafe: must stay <= end
+DoAdvance(k, n) == [k EXCEPT !.cursor = @ + n]
+OkHandOut(k, n) == n >= 0 /\ n <= k.cursor - k.start       \* unsafe: skip <= advanced distance
+DoHandOut(k, n) == [k EXCEPT !.lastEnd = k.cursor - n]
+DoCommit(k) == [k EXCEPT !.start = k.cursor]
+OkSetCursor(k, p) == k.start <= p /\ p <= k.end            \* unsafe: start <= ptr <= end
+DoSetCursor(k, p) == [k EXCEPT !.cursor = p]
+OkLoad(k, w) == w >= 0 /\ w <= Rem(k)                      \* a w-byte block load at the cursor
+KBounds(k, n) == 0 <= k.start /\ k.start <= k.cursor /\ k.cursor <= k.end /\ k.end <= n
+KSliceBounds(k) == 0 <= k.lastEnd /\ k.lastEnd <= k.end
+
 \* a (sub)cursor over [a, b) of the same buffer
-New(a, b) == /\ 0 <= a /\ a <= b /\ b <= len
-             /\ start' = a /\ cursor' = a /\ end' = b /\ lastEnd' = a /\ UNCHANGED len
+New(a, b) == OkNew(len, a, b) /\ Apply(DoNew(a, b))
 Peek == UNCHANGED cvars                                   \* checks cursor < end itself
-PeekAhead(n) == n >= 0 /\ n <= Remaining /\ UNCHANGED cvars       \* unsafe: n <= len()
-PeekN(n) == n >= 0 /\ UNCHANGED cvars                     \* safe: returns None if n > len()
-Advance(n) == /\ n >= 0 /\ n <= Remaining                 \* unsafe: must stay <= end
-              /\ cursor' = cursor + n /\ UNCHANGED <<len, start, end, lastEnd>>
-NextByte == /\ IF cursor < end THEN cursor' = cursor + 1 ELSE cursor' = cursor
-            /\ UNCHANGED <<len, start, end, lastEnd>>
+PeekAhead(n) == OkPeekAhead(Cur, n) /\ UNCHANGED cvars
+PeekN(n) == OkPeekN(Cur, n) /\ UNCHANGED cvars
+Advance(n) == OkAdvance(Cur, n) /\ Apply(DoAdvance(Cur, n))
+NextByte == Apply(IF cursor < end THEN DoAdvance(Cur, 1) ELSE Cur)
 \* slice() / slice_skip(k) hand out [start, cursor-k) and then commit; the code does it
 \* in two steps (the hand-out, then `commit()`), and so does the contract
-HandOut(k) == /\ k >= 0 /\ k <= cursor - start             \* unsafe: skip <= advanced distance
-              /\ lastEnd' = cursor - k /\ UNCHANGED <<len, start, cursor, end>>
-Commit == start' = cursor /\ UNCHANGED <<len, cursor, end, lastEnd>>
+HandOut(k) == OkHandOut(Cur, k) /\ Apply(DoHandOut(Cur, k))
+Commit == Apply(DoCommit(Cur))
 Slice == HandOut(0) \cdot Commit
 SliceSkip(k) == HandOut(k) \cdot Commit
-SetCursor(p) == /\ start <= p /\ p <= end                  \* unsafe: start <= ptr <= end
-                /\ cursor' = p /\ UNCHANGED <<len, start, end, lastEnd>>
+SetCursor(p) == OkSetCursor(Cur, p) /\ Apply(DoSetCursor(Cur, p))
 \* a w-byte SIMD block load at the cursor
-Load(w) == w >= 0 /\ w <= Remaining /\ UNCHANGED cvars
+Load(w) == OkLoad(Cur, w) /\ UNCHANGED cvars
 
 CNext == \/ \E a, b \in 0..len : New(a, b)
          \/ Peek \/ NextByte \/ Commit
@@ -58,8 +75,8 @@ CNext == \/ \E a, b \in 0..len : New(a, b)
 CSpec == CInit /\ [][CNext]_cvars
 
 TypeOK == len \in Int /\ start \in Int /\ cursor \in Int /\ end \in Int /\ lastEnd \in Int
-Bounds == 0 <= start /\ start <= cursor /\ cursor <= end /\ end <= len
-SliceBounds == 0 <= lastEnd /\ lastEnd <= end
+Bounds == KBounds(Cur, len)
+SliceBounds == KSliceBounds(Cur)
 IndInv == TypeOK /\ Bounds /\ SliceBounds /\ len >= 0
 \* forward-only, except for an explicit SetCursor (which the parser does not use)
 Forward == [][start' >= start \/ \E a, b \in 0..len : New(a, b)]_cvars
